@@ -1,11 +1,14 @@
 -------------------------------- MODULE C10 --------------------------------
 (* C10 - the regex engine is total.                                                           *)
-(*   Enum      : the construction space (vocabulary, length, flag strings, special patterns)   *)
-(*               and the matching grid (catastrophic families x subject lengths x modes).       *)
+(*   Enum      : the construction space (vocabulary, length, flag strings, special patterns,     *)
+(*               numeric payloads = forms x magnitudes x malformed numerals) and the matching   *)
+(*               grid (long-run and short-run families x subject lengths x run configurations:  *)
+(*               package API x poll interval, script entry points x flags x try/catch;          *)
+(*               deadlines in steps).                                                            *)
 (*   JudgeCons : outcome typing of every construction channel + agreement with the pattern     *)
 (*               acceptor of RegexSem wherever the string lies inside the specified grammar.    *)
-(*   JudgeRun  : observed step / stack / poll counts of matching runs against the budget        *)
-(*               bounds of the RegexVM model; outcome typing.                                   *)
+(*   JudgeRun  : observed step / stack / poll counts and steps after the deadline of matching     *)
+(*               runs against the budget bounds of the RegexVM model; outcome typing.           *)
 (*   JudgeFold : matching under the i flag against subjects with characters whose case mapping  *)
 (*               is several characters or leaves ASCII: outcome typing, and the exact result     *)
 (*               wherever the documented ASCII-only folding rule decides it.                     *)
